@@ -72,6 +72,8 @@ Apply(e) ==
          LET s0 == FlushReopen(rr, Dev)
              keep == DOMAIN g.ref \cap g.persist
          IN [s |-> s0, gg |-> [g EXCEPT !.ref = [x \in keep |-> g.ref[x]], !.must = "ok"], dd |-> {d \in Dev : FlushReopen(rr, Dev \ {d}) # s0}]
+    [] OTHER ->                      \* "panic": the call did not return; nothing the specification does explains that
+         [s |-> [rr EXCEPT !.res = "panic"], gg |-> [g EXCEPT !.must = "ok"], dd |-> {}]
 
 ResOk(e, a) == \/ a.gg.must = "either"
                \/ (a.gg.must = "ok" /\ e.res = "ok" /\ a.s.res = "ok")
